@@ -118,7 +118,16 @@ def build_unit(unit, workcopy, dropped=()):
         if kind == "fn" and ("loop" in item or "closure" in item or "arm_re" in item):
             loc = vx.locate(src, item["path"])
             ed = Edits(src.text)
-            lo, hi = vx.extract_block_as_fn(src, loc, item, ed)
+            try:
+                lo, hi = vx.extract_block_as_fn(src, loc, item, ed)
+            except Undecided as e:
+                if not item.get("optional_item"):
+                    raise
+                # an OPTIONAL block (e.g. a closure that a variant of the code writes inline): its obligation
+                # is then carried by the enclosing function, whose text is taken verbatim where the block was
+                log.append("OPTIONAL block %s not present (%s): skipped" % (item.get("as_fn"), str(e)[:120]))
+                out.pop()
+                continue
             log.extend(ed.log)
             if item.get("obligation"):
                 fn_ob[item["as_fn"]] = item["obligation"]
